@@ -168,6 +168,18 @@ check("C33", "model_checking",
       "TLA+ model of match coverage checked by TLC (RuleSound); all derived matches replayed into the real compiler and run on every sampled scrutinee value",
       "DESIGN.md section 6 C33")
 
+check("C06", "model_checking",
+      "Subtyping.tla defines the universe of types up to nesting depth 2 (built-in classes and traits, literal enum and interval refinement types, unions, intersections, lists with and without length, tuples; 280 types quick, 560 thorough), closed under subterms. TLC enumerates it; `vh subtype` builds each type with the compiler's own constructors and asks the real Context::subtype_of for every ordered pair; the 0/1 matrix is given back to TLC (artefact model checking), which scans it row by row and reports every failing instance of: reflexivity, transitivity (every triple), Never below / Obj above every type, the numeric tower Bool <: Nat <: Int <: Ratio <: Float <: Complex, T <: T or U, T and U <: T, enum/interval below the class of its values. A corrupted matrix is the canary.",
+      "Trusted: TLC; the JSON -> Type builder in harness/vh/src/subty.rs (uses erg_compiler::ty::constructors); the universe is a sample of depth <= 2, not all types.",
+      "TLA+ type universe enumerated by TLC; the real subtype relation recorded as an artefact and model-checked by TLC against the preorder/lattice laws",
+      "DESIGN.md section 6 C06")
+
+check("C26", "model_checking",
+      "RuntimeOps.tla is a state machine over one object of the runtime classes (Nat, Int, Float, Bool, plain Python operands, and the mutable cells Nat!, Int!, Float!): actions are the binary operators with the object on either side, unary operators, succ/pred, .mutate(), inc!/dec! and arithmetic on cells; the next state is the value Python's built-ins compute (PyVal/BigInt, integers up to 2**64) in the class the Erg declaration promises. TLC checks NatNonNeg and ClassOfValue on every reachable state, and rejects the machine with dec! below zero on Nat! cells (0.dec!() = -1) and with Int ** Int : Nat. The exhaustive start-object x operation x operand grid and simulated chains are replayed on the real classes from the staged lib/core under python 3.7-3.11: after each step the result must equal the built-in result for the plain operands, be a value of the declared class (results are re-wrapped as the generated code does), and no Nat or Nat! may hold a negative number.",
+      "Trusted: TLC; CPython's built-in arithmetic as the reference the statement names (the specification's value is the third voter); py/verif/rtops.py.",
+      "TLA+ state machine of the runtime classes model-checked by TLC; behaviours replayed on the real classes under every supported interpreter",
+      "DESIGN.md section 6 C26")
+
 NOT_APPLICABLE = {
     "C16": "static comparison of opcode/magic tables with external ground truth: no state or behaviour for a TLA+ specification to constrain (DESIGN.md section 7)",
     "C27": "data audit of ~150 declaration files against installed interpreters/typeshed: no behaviour to model in TLA+ (DESIGN.md section 7)",
